@@ -6,6 +6,7 @@
 mod canon;
 mod gen;
 mod grad;
+mod gs;
 mod json;
 mod rng;
 mod settings;
@@ -20,6 +21,8 @@ fn main() {
     let cmd = args.get(1).map(String::as_str).unwrap_or("");
     match cmd {
         "sv" => sv::main(arg(&args, 2, 0), arg(&args, 3, 100)),
+        "gs_exh" => gs::main_exh(arg(&args, 2, 0), arg(&args, 3, 1), arg(&args, 4, 0)),
+        "gs_rand" => gs::main_rand(arg(&args, 2, 0), arg(&args, 3, 100)),
         "grad" => grad::main(arg(&args, 2, 0), arg(&args, 3, 100), arg(&args, 4, 40)),
         _ => {
             eprintln!("unknown subcommand {cmd:?}");
